@@ -320,3 +320,19 @@ func TestVerifFindingC14PrefixAtLineStart(t *testing.T) {
 		t.Errorf("completion at the start of \"abc def\": %q, want a candidate inserted before the unchanged text", got)
 	}
 }
+
+// Regression introduced by fix 3ddca77 (dispatchKeys on an empty key stack returns no bind) and repaired since:
+// abort decides whether to end Readline with ErrInterrupt by asking Keymap.InputIsTerminator(), which
+// re-dispatches the (by then empty) key stack and used to get the *current* command's bind back (abort itself).
+// With the empty-stack fix alone that answer became "no", so C-g / C-c never interrupted the call any more.
+func TestVerifFindingAbortStillInterrupts(t *testing.T) {
+	s := newSession(false)
+	devnull, _ := os.OpenFile(os.DevNull, os.O_WRONLY, 0)
+	oldOut := os.Stdout
+	os.Stdout = devnull // abort prints through the display engine
+	s.keys("abc\x07")  // C-g is bound to abort in the emacs keymap
+	os.Stdout = oldOut
+	if !s.accepted || s.err == nil {
+		t.Errorf("C-g on a plain line: accepted=%v err=%v, want the call to end with ErrInterrupt", s.accepted, s.err)
+	}
+}
